@@ -142,8 +142,8 @@ def r1_r2(repo, chk):
         nr = h.local_defs("newly_received")
         ok = len(nr) == 1 and norm(nr[0]) == f"max(0, {demanded} - stream.receiver.highest_offset)"
         chk.ob("R1", f"{hname}: the connection-level demand is the part of the frame above the stream's highest offset", ok, f"{[norm(x) for x in nr]}", h.loc(h.node))
-        inc = [st for st, t, v in h.assigns(chain="self._local_max_data.used") if isinstance(st, ast.AugAssign)]
-        ok = len(inc) == 1 and isinstance(inc[0].op, ast.Add) and norm(inc[0].value) == "newly_received" and h.before(rc, inc[0]) and not h.lexical_guards(inc[0], expand=False)
+        inc = h.updates("self._local_max_data.used")
+        ok = len(inc) == 1 and len(h.assigns(chain="self._local_max_data.used")) == 1 and isinstance(inc[0][1], ast.Add) and norm(inc[0][2]) == "newly_received" and h.before(rc, inc[0][0]) and not h.lexical_guards(inc[0][0], expand=False)
         chk.ob("R1", f"{hname}: used += exactly the amount that was checked, after the receiver accepted it", ok, "", h.loc(h.node))
         hs = h.enclosing_handlers(rc)
         ok = any(hh.type is not None and norm(hh.type) == "FinalSizeError" and any(isinstance(x, ast.Raise) and raise_class(x) == "QuicConnectionError" and norm(raise_kw(x, "error_code") or ast.Constant(0)).endswith(".FINAL_SIZE_ERROR") for x in hh.body) for hh in hs)
@@ -384,9 +384,18 @@ def r4(repo, chk):
     h = Fn(repo, CONN + "_handle_crypto_frame")
     rs = _raises_with(h, "CRYPTO_BUFFER_EXCEEDED")
     hf = [c for c in h.calls(suffix="handle_frame") if "receiver" in call_name(c)]
-    ok = len(rs) == 1 and len(hf) == 1 and _strict_gt(h, rs[0], ["offset + length", "stream.receiver.starting_offset()"], "MAX_PENDING_CRYPTO") and h.before(rs[0]._parent, hf[0])
+    # read through whatever locals hold the receiver / the frame end; the frame's own fields stay symbolic
+    xp = lambda e: norm(h._expand(e, 4, {"offset", "length"}))  # noqa: E731
+    recvx = xp(hf[0].func.value) if len(hf) == 1 else None
+    ok = len(rs) == 1 and len(hf) == 1
+    if ok:
+        from sa.q import atoms_of
+
+        at = []
+        for test, pol, _ in h.guards(rs[0]):
+            at += atoms_of(test, pol, expand=xp)
+        ok = (f"offset + length - {recvx}.starting_offset() > MAX_PENDING_CRYPTO", True) in at and h.before(rs[0]._parent, hf[0])
     chk.ob("R4", "_handle_crypto_frame: `offset + length - starting_offset() > MAX_PENDING_CRYPTO` raises before the frame reaches the reassembly buffer", ok, "", h.loc(h.node))
-    st = [norm(v) for s2, t, v in h.assigns(chain="stream")]
-    chk.ob("R4", "the tested stream is the crypto stream of the packet's epoch", st == ["self._crypto_streams[context.epoch]"], f"{st}", h.loc(h.node))
+    chk.ob("R4", "the tested stream is the crypto stream of the packet's epoch", recvx == "self._crypto_streams[context.epoch].receiver", f"{recvx}", h.loc(h.node))
     so = Fn(repo, "quic.stream:QuicStreamReceiver.starting_offset")
     chk.ob("R4", "starting_offset() is the start of the undelivered data", [norm(r.value) for r in so.returns()] == ["self._buffer_start"], "", so.loc(so.node))
